@@ -38,7 +38,10 @@
 //           iff depth >= M, else scalars.max_logic_depth == depth and LogicEvaluator on the
 //           STORED logic reproduces the table (UnitInserter::calc_max_depth, OrangeParams limit)
 //
-// Bounds: K = 6 (quick) / 7 (thorough) effective inserts for each of two surface labellings;
+// Bounds: K = 6 (quick) / 7 (thorough) effective inserts for each of two surface labellings
+// ({0,1,2,3} and {5,1,6,3}); a third, strictly decreasing labelling {7,4,2,0} (largest id
+// inserted first) with K-1 inserts gets the insert transitions and the encoder checks only (no
+// simplify / replace / exchange / De Morgan, no chains);
 // insert transitions at every state with < K nodes.  Thorough, labelling 1: depth-7 leaves get
 // the encoder checks only.  Part "csg_asan" (thorough): K = 5 under AddressSanitizer.
 // The exploration is depth-first and sharded by the index of the depth-<=5 prefix state.
@@ -104,7 +107,9 @@ inline TT mask_of(int nsurf)
 }
 
 // Surface labelling: k-th inserted surface -> LocalSurfaceId.  Labelling 1 is sparse and not
-// monotone so that face sorting / remapping is not the identity.
+// monotone so that face sorting / remapping is not the identity.  Labelling 2 is strictly
+// DECREASING (the first-inserted surface has the largest id, the last one the smallest; the
+// sorted face list is the exact reverse of the order of first use): encoder checks only.
 struct Lab
 {
     int index;
@@ -113,7 +118,7 @@ struct Lab
 };
 Lab make_lab(int index)
 {
-    static uint32_t const ids[2][4] = {{0, 1, 2, 3}, {5, 1, 6, 3}};
+    static uint32_t const ids[3][4] = {{0, 1, 2, 3}, {5, 1, 6, 3}, {7, 4, 2, 0}};
     Lab l;
     l.index = index;
     for (int i = 0; i < 8; ++i)
@@ -1591,6 +1596,7 @@ struct Explorer
     int max_surf = 4;
     bool pairs_at_leaves;
     bool light_leaves = false;
+    bool encoders_only = false;  // labelling 2: only the operations that look at surface ids
     uint64_t unit_counter = 0;
     uint64_t samples = 0;
     bool stop = false;
@@ -1741,7 +1747,7 @@ struct Explorer
         }
         bool leaf = st.depth >= K;
         C.check_encoders(st.tree, I, st.nsurf, st.path, "built", true);
-        if (!(leaf && light_leaves))
+        if (!(leaf && light_leaves) && !encoders_only)
         {
             // (labelling 1, thorough: the depth-K leaves only get the encoders, which are the
             // only operations that look at surface ids; the rest is covered under labelling 0)
@@ -2063,7 +2069,9 @@ int main(int argc, char** argv)
     // bounds: K = number of effective inserts (nodes besides true/false) per labelling
     // (the AddressSanitizer part runs the same exploration two levels shallower)
     int const shallow = (R.part() == "csg_asan") ? 2 : 0;
-    int const K_of_lab[2] = {(thorough ? 7 : 6) - shallow, (thorough ? 7 : 6) - shallow};
+    // labelling 2 (strictly decreasing ids): one level shallower, encoder checks only
+    int const K_of_lab[3] = {(thorough ? 7 : 6) - shallow, (thorough ? 7 : 6) - shallow,
+                             (thorough ? 7 : 6) - shallow - 1};
 
     if (R.replay() && R.replay_case().rfind("chain:L", 0) == 0)
     {
@@ -2082,12 +2090,13 @@ int main(int argc, char** argv)
         size_t sp = cid.find(' ');
         if (sp != std::string::npos)
             cid = cid.substr(0, sp);
-        if (cid.size() < 2 || cid[0] != 'L' || (cid[1] != '0' && cid[1] != '1'))
+        if (cid.size() < 2 || cid[0] != 'L' || cid[1] < '0' || cid[1] > '2')
             R.harness_error("bad case id " + cid);
         Lab lab = make_lab(cid[1] - '0');
         Checker C(R, lab);
         Explorer E{R, C, 0, 0};
         E.pairs_at_leaves = true;
+        E.encoders_only = lab.index == 2;
         State st = root_state(lab);
         size_t p = 2;
         while (p < cid.size())
@@ -2123,13 +2132,14 @@ int main(int argc, char** argv)
     }
     else
     {
-        for (int li = 0; li < 2; ++li)
+        for (int li = 0; li < 3; ++li)
         {
             Lab lab = make_lab(li);
             Checker C(R, lab);
             Explorer E{R, C, K_of_lab[li], std::min(5, K_of_lab[li] - 1)};
             E.pairs_at_leaves = true;
             E.light_leaves = thorough && li == 1;
+            E.encoders_only = li == 2;
             // keep the unit index distinct between the labellings so that shards interleave
             E.unit_counter = uint64_t(li) * 7;
             State st = root_state(lab);
@@ -2137,7 +2147,8 @@ int main(int argc, char** argv)
             if (E.stop)
                 R.cap_hit(fmt("deadline reached while exploring labelling %d (K=%d)", li,
                               K_of_lab[li]));
-            check_chains(R, C, thorough);
+            if (li < 2)
+                check_chains(R, C, thorough);
         }
     }
 
